@@ -65,7 +65,8 @@ def boundary_lengths(mtu):
 
 def sweep_ops(rng, mtu, lengths, h=H_RW):
     """ascending sweep on one handle: write, long read, plain read"""
-    ops = [["set_mtu", mtu]] if mtu != 23 else []
+    # the MTU is negotiated by the client or, one time in three, by the server
+    ops = [[rng.choice(["set_mtu", "set_mtu", "srv_set_mtu"]), mtu]] if mtu != 23 else []
     for n in lengths:
         v = val(rng, n)
         ops.append(["write", h, v.hex()])
@@ -123,7 +124,7 @@ def random_ops(rng, n_ops, mtu=None):
             else:
                 ops.append([kind, h])
         elif k < 0.96:
-            ops.append(["set_mtu", rng.choice(MTUS + [rng.randrange(23, 518), 22, 5])])
+            ops.append([rng.choice(["set_mtu", "set_mtu", "srv_set_mtu"]), rng.choice(MTUS + [rng.randrange(23, 518), 22, 5])])
             if ops[-1][1] >= 23:
                 mtu = ops[-1][1]
         elif k < 0.985:
@@ -180,17 +181,65 @@ def tuple_sequences(rng, mtu, k, split=True, sample=False):
         tuples = alt + rng.sample(rest, 40)
     for t in tuples:
         h = H_RW if (PROCS.index(t[0]) + PROCS.index(t[-1])) % 2 == 0 else H_RW2
-        ops = seqs.setdefault(t[0] if split else "", [["set_mtu", mtu]] if mtu != 23 else [])
+        ops = seqs.setdefault(t[0] if split else "", [[rng.choice(["set_mtu", "srv_set_mtu"]), mtu]] if mtu != 23 else [])
         ops.append(["write", h, fresh_value(big_len(rng, mtu)).hex()])                   # setup: stored value >= MTU-1 bytes
         for name in t:
             ops.append(proc_op(rng, name, h, mtu))
     return list(seqs.values())
 
 
+def transfers(rng, h, mtu_hint):
+    """a long write of a fresh value well above every MTU in play, then the three reads"""
+    n = rng.choice([mtu_hint + 7, 2 * mtu_hint + 1, 300, 512, rng.randrange(24, 513)])
+    n = max(24, min(512, n))
+    return [[rng.choice(["write", "write_long"]), h, fresh_value(n).hex()], ["read_long", h], ["read", h],
+            ["read_blob", h, rng.choice([0, 21, 22, mtu_hint - 1, mtu_hint, n])]]
+
+
+def mtu_history(rng, steps):
+    """MTU exchanges initiated by the client (set_mtu) and by the server (srv_set_mtu), values
+    below / equal to / above the current one, in both orders, with transfers before, between and
+    after them"""
+    ops, cur = [], 23
+    h = rng.choice([H_RW, H_RW2])
+    ops += transfers(rng, h, cur)
+    for who, rel in steps:
+        if rel == "above":
+            m = rng.randrange(cur + 1, 518) if cur < 517 else 517
+        elif rel == "below":
+            m = rng.randrange(23, cur) if cur > 23 else 23
+        elif rel == "equal":
+            m = cur
+        else:                       # not a valid ATT MTU: nothing must be sent, nothing must change
+            m = rng.choice([0, 5, 22])
+        ops.append(["set_mtu" if who == "c" else "srv_set_mtu", m])
+        if m >= 23:
+            cur = m
+        ops += transfers(rng, h, cur)
+    return ops
+
+
+def mtu_histories(rng, n_random):
+    base = [
+        [("s", "above")],                                   # fresh connection, server asks for more
+        [("s", "above"), ("s", "below"), ("s", "equal")],
+        [("c", "above"), ("s", "above")], [("s", "above"), ("c", "above")],
+        [("c", "above"), ("s", "below")], [("s", "above"), ("c", "below")],
+        [("c", "above"), ("s", "equal"), ("s", "invalid"), ("c", "invalid")],
+    ]
+    out = [mtu_history(rng, st) for st in base]
+    for _ in range(n_random):
+        st = [(rng.choice("cs"), rng.choice(["above", "above", "below", "equal", "invalid"])) for _ in range(rng.randrange(2, 6))]
+        out.append(mtu_history(rng, st))
+    return out
+
+
 def gen_cases(ctx):
     rng, prof, cases = ctx.rng, base_profile(), []
     def add(ops, tag):
         cases.append({"profile": prof, "ops": ops, "tag": tag})
+    for ops in mtu_histories(rng, 40 if ctx.thorough else 3):
+        add(ops, "mtu-history")
     if ctx.thorough:
         for mtu in [23, 24, 27, 28, 64, 185, 247]:
             for ops in tuple_sequences(rng, mtu, 3):
@@ -295,7 +344,7 @@ def oracle(ctx, ci, case, res, stats):
         okind = r.get("ok")
         stats["outcomes"][("ok:" + okind) if ok else r.get("exc", "blocked" if r.get("blocked") else "?")] = \
             stats["outcomes"].get(("ok:" + okind) if ok else r.get("exc", "blocked" if r.get("blocked") else "?"), 0) + 1
-        h = op[1] if name != "set_mtu" else None
+        h = op[1] if name not in ("set_mtu", "srv_set_mtu") else None
         kind = table[h][1] if h in table else None
         # --- any outcome: an ATT / GATT error, never another exception, never a blocked client
         if r.get("blocked") or r.get("spin"):
@@ -309,11 +358,18 @@ def oracle(ctx, ci, case, res, stats):
         changed_others = [x for x, _ in st["delta"] if x != h]
         if changed_others:
             bad("%s on handle %s changed the stored value of other attributes %r" % (name, h, changed_others), observed=st["delta"])
-        if name == "set_mtu":
+        if name in ("set_mtu", "srv_set_mtu"):
             m = op[1]
+            who = "client" if name == "set_mtu" else "server"
             if m >= 23:
                 if not (ok and okind == "int" and r["v"] == m and st["cmtu"] == m and st["smtu"] == m):
-                    bad("MTU exchange did not set both sides to the requested MTU", expected=m, observed=[r, st["cmtu"], st["smtu"]])
+                    bad("MTU exchange initiated by the %s did not leave both ends with the exchanged MTU" % who,
+                        expected=m, observed=[r, st["cmtu"], st["smtu"]])
+            elif st["cmtu"] != cmtu or st["smtu"] != cmtu:
+                bad("MTU exchange below 23 requested by the %s changed an MTU" % who, expected=cmtu, observed=[st["cmtu"], st["smtu"]])
+            if st["cmtu"] != st["smtu"]:
+                bad("client and server use different MTUs after an exchange initiated by the %s" % who,
+                    expected="same MTU on both ends", observed=[st["cmtu"], st["smtu"]])
             cmtu = st["cmtu"]
             continue
         if name in ("write", "write_long", "write_command"):
@@ -392,6 +448,8 @@ def op_lit(op):
     n = op[0]
     if n == "set_mtu":
         return "OSetMtu %s" % cnat(op[1])
+    if n == "srv_set_mtu":
+        return "OSrvMtu %s" % cnat(op[1])
     if n == "read":
         return "ORead %d" % op[1]
     if n == "read_long":
